@@ -278,7 +278,7 @@ static void engine_fault_impl(RunCtx& cx) {
                     else if (p.plan.sw.compression == 2) dec0 = model::unxz_exact(raw0, plain0, err0);
                     else plain0 = raw0;
                     if (!dec0 || !plain0.empty()) {
-                        std::string d = "the destination of the first (throwing) recovery rotate_output holds " + std::to_string(dec0 ? plain0.size() : raw0.size()) + " bytes although no block was written to it";
+                        std::string d = "the destination of the first (throwing) recovery rotate_output holds " + std::to_string(dec0 ? plain0.size() : raw0.size()) + " bytes (" + hex(dec0 ? plain0 : raw0, 16) + ") although no block was written to it";
                         V("I16/data-in-output-without-blocks", d);
                         cx.violation("C02", "C02/I03/nonempty-without-blocks-after-write-fault", d);
                         cx.violation("C13", "C13/I12/output-after-write-fault-not-self-contained", d);
